@@ -11,7 +11,9 @@
                   (types text, flex, container, tag, image, image_ascii, glyph, ref) are trees of this type;
                   "color" cannot be deserialised at all, custom handler types are whatever they return.
      ct, Valid    BoxConstraint with min <= max per axis (any extents, including 0 and 1)
-     vctx         glyph capability, char widths, pixels per cell (ppc_h, ppc_w: any numbers, 0 included),
+     vctx         glyph capability, char widths, pixels per cell (ppc_h, ppc_w: any numbers in the model, 0
+                  included; the code additionally needs surface extent x ppc <= usize::MAX and an allocatable
+                  3x3-cell raster: assumption, props.d/C10.py),
                   v_share: the flex share as a function of (positive factors, index of the flex child,
                   remaining space) -- ANY function: every theorem below holds for every share function, hence
                   for whatever binary64 arithmetic yields for the factors that pass the filter (finite, > 0;
@@ -20,7 +22,12 @@
      layout       View::layout: outcome of a layout tree (Panic where the code would panic)
      render       View::render over a surface `sh` of a backing slice, through Layout::apply_to
      Rep H W sh w (C07) `sh` is the surface of window `w` of an H x W canvas (plain, offset, strided,
-                  transposed views) *)
+                  transposed views)
+
+   Counted theorems (14): C10_layout_total, C10_within, C10_render_contained, C10_apply_to_inside, C10_total,
+   C10_paint_rect, C10_hit_test, C10_siblings_disjoint, C10_hit_order_free, C10_painted_cell_hits_leaf,
+   C10_align_checked, C10_find_path_checked, C10_leaf_confined, C10_text_cap_exact.  The _nonvacuous Examples
+   are audited, not counted.  Final state and limits: design/C10.md. *)
 From Coq Require Import List Arith Bool NArith ZArith.
 From SNT Require Import Base.Outcome Surface.Bounds Surface.Shape Surface.ShapeProofs
   Render.CellLayout Render.Writer Render.WriterFrame View.ViewModel View.LayoutProofs View.RenderProofs
